@@ -51,6 +51,10 @@ func knownPattern(minSrc string, res rtResult) string {
 			if x.Operation == ast.OperationMove && parentIsExpr {
 				found["nested-move-operand"] = true
 			}
+		case *ast.BinaryExpression:
+			if l, ok := x.Left.(*ast.BinaryExpression); ok && x.Operation == ast.OperationGreater && l.Operation == ast.OperationLess {
+				found["less-greater-chain-reads-as-type-arguments"] = true
+			}
 		case *ast.MemberExpression:
 			if _, ok := x.Expression.(*ast.IntegerExpression); ok && !negativeLiteral(x.Expression) {
 				found["member-of-integer-literal"] = true
@@ -89,7 +93,7 @@ func knownPattern(minSrc string, res rtResult) string {
 	if strings.Contains(res.key, "RestrictedTypeError") && lessThanEmptyFun.MatchString(res.printed) {
 		return "less-than-before-empty-function-expression"
 	}
-	for _, k := range []string{"postfix-on-negative-literal", "empty-entitlement-mapping", "transaction-empty-parameter-list", "empty-else-block",
+	for _, k := range []string{"less-greater-chain-reads-as-type-arguments", "postfix-on-negative-literal", "empty-entitlement-mapping", "transaction-empty-parameter-list", "empty-else-block",
 		"member-of-integer-literal", "nested-destroy-operand", "nested-attach-operand", "nested-move-operand"} {
 		if found[k] {
 			return k
